@@ -101,14 +101,16 @@ def subj_selector(b, kind, pattern):
     mod, cls, axis = SELECTORS[kind]
     fam = {"FPS": "fps", "PCovFPS": "pcovfps", "CUR": "cur", "PCovCUR": "pcovcur", "VoronoiFPS": "voronoi"}[cls]
     needs_y = fam in ("pcovfps", "pcovcur")
-    kinds = WELL if pattern in ("repeat", "refit") else ANYK
+    # comparisons between two executions are only meaningful where the selection is well
+    # defined (no exhausted candidates / degenerate spectra); purity-only runs use any data
+    kinds = WELL if pattern in ("repeat", "refit", "single") else ANYK
     n, m = rng.randint(4, 16), rng.randint(3, 9)
     XA = b.X(n, m, kinds)
     n2, m2 = (n, m) if rng.random() < 0.3 else (rng.randint(4, 16), rng.randint(3, 9))
     XB = b.X(n2, m2, kinds)
     nfA, nfB = (XA["shape"][axis], XB["shape"][axis])
     lim = min(nfA, nfB)
-    if fam in ("cur", "pcovcur") and pattern in ("repeat", "refit"):
+    if fam in ("cur", "pcovcur") and pattern in ("repeat", "refit", "single"):
         lim = max(1, min(lim, min(min(XA["shape"]), min(XB["shape"])) - 3))
     N = rng.randint(1, max(1, lim))
     p = {"n_to_select": N}
